@@ -701,6 +701,19 @@ Module WitJ.
   (* entity(f, b == f.parent) and entity(f, f.parent == b), b : Body *)
   Definition q_namedvar := Wit.mk false [(1, 8); (2, 5)] (CCmp OEq (OVar 2) (OAttr 1 [10])).
   Definition q_namedvar_right := Wit.mk false [(1, 8); (2, 5)] (CCmp OEq (OAttr 1 [10]) (OVar 2)).
+  (* class 13 Atom(element = 14 : Enum, type = 15): atoms 1 (C, 1), 2 (H, 0), 3 (C, 2); an Enum member is VStr (0 :: name) *)
+  Definition sce : schema := {| sc_fields := [(13, [(14, FScalar); (15, FScalar)])]; sc_sub := [(13, 13)] |}.
+  Definition eC : val := VStr [0; 67].
+  Definition eH : val := VStr [0; 72].
+  Definition we : world :=
+    [ {| o_key := 1; o_cls := 13; o_fields := [(14, eC); (15, VInt 1)] |};
+      {| o_key := 2; o_cls := 13; o_fields := [(14, eH); (15, VInt 0)] |};
+      {| o_key := 3; o_cls := 13; o_fields := [(14, eC); (15, VInt 2)] |} ].
+  (* entity(a, and_(a.element, or_(a.element == Element.C, in_(a.element, [Element.H])), a.type)) and entity(a, a.element < Element.H) *)
+  Definition q_enum := Wit.mk false [(1, 13)]
+    (CAnd (CAnd (CTruth (OAttr 1 [14])) (COr (CCmp OEq (OAttr 1 [14]) (OLit eC)) (CContains (OList [eH]) (OAttr 1 [14]))))
+          (CTruth (OAttr 1 [15]))).
+  Definition q_enum_lt := Wit.mk false [(1, 13)] (CCmp OLt (OAttr 1 [14]) (OLit eH)).
 End WitJ.
 
 Lemma nonvacuous_join :
@@ -733,6 +746,15 @@ Lemma fixed_setof : translate Wit.sc WitJ.q_setof = TReject.
 Proof. vm_compute; reflexivity. Qed.
 Theorem rejects_setof sc q : q_setof q = true -> translate sc q = TReject.
 Proof. intros H. unfold translate. now rewrite H. Qed.
+
+Lemma nonvacuous_enum :      (* a bare Enum attribute, == / in_ on it: inside F07 *)
+  f07 WitJ.sce WitJ.q_enum WitJ.we = true /\ model_res WitJ.sce WitJ.q_enum WitJ.we = Some (Ok [1; 3]) /\
+  answers WitJ.sce WitJ.q_enum WitJ.we = Ok [1; 3].
+Proof. repeat split; vm_compute; reflexivity. Qed.
+Lemma refuted_enumorder :    (* a.element < Element.H: Enum members have no order in Python (TypeError); SQL orders the stored names *)
+  f07 WitJ.sce WitJ.q_enum_lt WitJ.we = false /\
+  model_res WitJ.sce WitJ.q_enum_lt WitJ.we = Some (Ok [1; 3]) /\ answers WitJ.sce WitJ.q_enum_lt WitJ.we = Err TypeErr.
+Proof. repeat split; vm_compute; reflexivity. Qed.
 
 (* repaired (313603b): in_(p.x, {1, 2}) is IN (1, 2), inside F07 *)
 Lemma fixed_setlit :
